@@ -89,6 +89,12 @@ def run_case(case):
     rng = random.Random(case['wseed'])
     prefix = 'vwz%d' % case['idx']
     ncls = rng.randint(1, 2)
+    # a fifth of the worlds run in layer subprocesses (each writes report
+    # files of its own into the same directory): give those worlds 2-3
+    # layers so that several children come one after the other / together
+    submode = rng.choice(['par', 'resume']) if rng.random() < 0.2 else None
+    if submode:
+        ncls = rng.randint(2, 3)
     nodes = []
     labels = set()
     hostile_names = 0
@@ -117,9 +123,12 @@ def run_case(case):
                 elif r < 0.6:
                     t['subkw'] = {'path': 'a.b/c.d'}
             tests.append(t)
-        nodes.append({'t': 'class',
-                      'name': 'TestX%d%s' % (c, rng.choice(['', '', '\xc9'])),
-                      'tests': tests})
+        node = {'t': 'class',
+                'name': 'TestX%d%s' % (c, rng.choice(['', '', '\xc9'])),
+                'tests': tests}
+        if submode:
+            node['layer'] = 'L%d' % c
+        nodes.append(node)
     ndoc = 0
     if rng.random() < 0.35:
         docs = []
@@ -147,8 +156,14 @@ def run_case(case):
         nodes.append({'t': 'docfile',
                       'files': ['docs/readme_%d.txt' % case['idx']]})
         ndoc += 1
+    xlayers = []
+    if submode:
+        xlayers = [{'name': 'L%d' % c, 'kind': 'class', 'bases': [],
+                    'hooks': {'setUp': 'ok', 'tearDown': 'nie'
+                              if submode == 'resume' else 'ok'}}
+                   for c in range(ncls)]
     spec = {'prefix': prefix, 'layers_module': prefix + '_layers',
-            'layers': [], 'extra_files': extra_files,
+            'layers': xlayers, 'extra_files': extra_files,
             'modules': [{'name': prefix + '_p.tests.test_x',
                          'file': prefix + '_p/tests/test_x.py',
                          'suite': {'t': 'suite', 'ch': nodes}}]}
@@ -167,9 +182,9 @@ def run_case(case):
         opts['repeat'] = 2
     if rng.random() < 0.2:
         opts['buffer'] = True
-    if rng.random() < 0.2:
-        # the layer runs in a subprocess, which writes the report files
-        opts['processes'] = 2
+    if submode == 'par':
+        # the layers run in subprocesses, which write the report files
+        opts['processes'] = rng.randint(2, 3)
     rep = opts.get('repeat') or 1
     root = vworld.materialise(spec)
     xmldir = os.path.join(root, 'xmlout')
@@ -194,8 +209,10 @@ def run_case(case):
                 mech = 'xml-write-raised-' + type(w.raised).__name__
             V('run-aborted', mech, tb=tb[-900:])
             return {'viol': viol, 'evals': 1, 'counters': counters}
-        if opts.get('processes'):
+        if submode:
             C('subprocess_written_reports')
+            C('layer_subprocesses', len({
+                e['pid'] for e in w.events if e['k'] == 'test.setUp'}))
         rdir = os.path.join(xmldir, 'testreports')
         files = sorted(os.listdir(rdir)) if os.path.isdir(rdir) else []
         cases_by_class = {}
